@@ -51,6 +51,51 @@ def check_entry_writers(rep, rid, core):
         rep.bad(rid, 'entry-writers', 'expected the two resolve functions to write their own state, found %d writer(s)' % n)
 
 
+VEC_MUTATORS = {'pop', 'remove', 'swap_remove', 'truncate', 'clear', 'retain', 'retain_mut', 'dedup', 'dedup_by', 'dedup_by_key', 'drain', 'sort', 'sort_by',
+                'sort_by_key', 'sort_unstable', 'sort_unstable_by', 'sort_unstable_by_key', 'reverse', 'insert', 'swap', 'split_off', 'append', 'extend',
+                'rotate_left', 'rotate_right'}
+
+
+def bridge_pipeline_loop(core, cg, STOP, first):
+    """loop form of the pipeline: a fresh Vec, and inside `for e in effects` exactly one push(register(e)) on every iteration"""
+    from rules.common import deep_origins
+    from rules.props import c01
+    h = first[0][0]
+    if any(x is not h for x, _ in first):
+        return False, 'loop form: the batch is created in several functions'
+    pushes = [(bb, t) for bb, t in h.calls('alloc::vec::Vec::push') if 'bridge::Request<' in ' '.join(t.get('targs') or [])]
+    others = [last_seg(t['callee']) for bb, t in h.calls() if 'alloc::vec::Vec' in norm(t.get('callee') or '') and 'bridge::Request<' in ' '.join(t.get('targs') or [])
+              and last_seg(t['callee']) in VEC_MUTATORS]
+    if len(pushes) != 1 or others:
+        return False, 'loop form: expected exactly one push into the batch and no other mutation (pushes %d, other %s)' % (len(pushes), others)
+    pb, pt = pushes[0]
+    regs = [o for o in origins(h, pt['args'][1])]
+    if not regs or not all(o.kind == 'call' and call_matches(o.term, ['crux_core::bridge::registry::ResolveRegistry::register']) for o in regs) or len(set(o.bb for o in regs)) != 1:
+        return False, 'loop form: what is pushed is not the result of one register(..) call'
+    rb = regs[0].bb
+    items = origins(h, regs[0].term['args'][1])
+    if not items or not all(o.kind == 'call' and last_seg(o.term.get('callee') or '') == 'next' and o.suffix == ['as Some', '.0'] for o in items) or \
+            len(set(o.bb for o in items)) != 1:
+        return False, 'loop form: the registered value is not the item of a next() call'
+    nb = items[0].bb
+    nt = h.blocks[nb]['t']
+    none_edges = c01.none_edges_of(h, nb, nt)
+    some_targets = [s2 for s2 in h.succ(none_edges[0][0]) if (none_edges[0][0], s2) not in none_edges] if none_edges else []
+    every = bool(some_targets) and h.in_cycle(nb) and pb in h.reachable_after(nb) and \
+        all(nb not in h.reachable([st_], removed_blocks=[pb]) and not (set(h.return_blocks()) & h.reachable([st_], removed_blocks=[pb])) for st_ in some_targets) and \
+        rb != pb and h.dominates(rb, pb)
+    it_src = origins(h, nt['args'][0], extra_identity=[('core::iter::traits::collect::IntoIterator::into_iter', 0)])
+    roots = []
+    for o in it_src:
+        if o.kind == 'call' and last_seg(o.term.get('callee') or '') == 'into_iter':
+            roots += deep_origins(cg, h, o.term['args'][0], stop_calls=STOP)
+        else:
+            roots.append((h, o))
+    from_core = bool(roots) and all(o.kind == 'call' and call_matches(o.term, STOP) and [tok for tok in o.suffix if tok not in ('as Ok', '.0', 'as Continue')] == []
+                                    for _, o in roots) and len(set(last_seg(o.term['callee']) for _, o in roots)) == 2
+    return (every and from_core), 'loop form; effects come from both core entry points: %s; every item is registered once and pushed: %s' % (from_core, every)
+
+
 def bridge_pipeline(core):
     """The vector handed to erased_serialize is `collect(map(into_iter(effects), |e| register(e)))` where `effects` is the result of
     Core::process_event / Core::process; followed across helper functions.  Returns (ok, detail)."""
@@ -67,6 +112,10 @@ def bridge_pipeline(core):
     if len(sers) != 1:
         return False, 'expected one serialisation of the request batch, found %d' % len(sers)
     f, bb, t = sers[0]
+    first = deep_origins(cg, f, t['args'][0], stop_calls=STOP)
+    if first and all(o.kind == 'call' and last_seg(o.term.get('callee') or '') in ('new', 'with_capacity') and 'alloc::vec::Vec' in norm(o.term.get('callee') or '')
+                     for h, o in first):
+        return bridge_pipeline_loop(core, cg, STOP, first)
     cur = [(f, t['args'][0])]
     chain = []
     clo = None
